@@ -21,6 +21,7 @@ ASSUMPTIONS = [
 ]
 
 PROFILE = scenario.profile(
+    out_spellings=("float", "float", "np", "arr1", "arr11", "arr0", "np32"),
     maxD=3,
     allow_mixed_unbounded=True,  # bounded and unbounded variables in one problem (valid since the per-variable half-bounds fix)
     noise_modes=("none", "none", "auto", "declared", "specified", "specified"),
